@@ -461,7 +461,7 @@ func (t *fnTrans) siteAfter(site string, in ssa.Instruction, cc *ssa.CallCommon,
 		if i < 0 {
 			continue
 		}
-		name := strings.TrimSpace(sl.text[:i])
+		name := strings.TrimSuffix(strings.TrimSpace(sl.text[:i]), ":bool")
 		e := t.selfCtx()
 		e.results = siteResults
 		func() {
